@@ -3,6 +3,10 @@ pub mod adapter;
 pub mod engine;
 pub mod model {
     pub mod cal;
+    pub mod dyadic;
     pub mod text;
 }
+pub mod ops;
+pub mod pools;
 pub mod props;
+pub mod strat;
